@@ -3,6 +3,7 @@ package c08
 import (
 	"bufio"
 	"bytes"
+	"context"
 	"crypto/tls"
 	"encoding/binary"
 	"encoding/hex"
@@ -17,10 +18,14 @@ import (
 	"testing"
 	"time"
 
+	"github.com/scionproto/scion/pkg/addr"
 	spathpkg "github.com/scionproto/scion/pkg/slayers/path"
+	snetpath "github.com/scionproto/scion/pkg/snet/path"
 
 	"example.com/scion-time/net/csptp"
 	"example.com/scion-time/net/ntp"
+	"example.com/scion-time/net/scion"
+	"example.com/scion-time/net/udp"
 
 	"verif/internal/netlab"
 	"verif/internal/vt"
@@ -212,7 +217,7 @@ const appPortC08 = 40108
 func newRig(v *victim, slot int) (*rig, error) {
 	r := &rig{v: v, socks: map[string]*net.UDPConn{}}
 	src := netlab.AddrN(8 + slot)
-	for _, t := range []string{"ntp", "scion-svc", "scion-eh", "disp", "csptp-ev", "csptp-gen"} {
+	for _, t := range []string{"ntp", "scion-svc", "scion-eh", "disp", "csptp-ev", "csptp-gen", "ntske-scion"} {
 		c, err := net.ListenUDP("udp", netlab.UDPAddr(src, 0))
 		if err != nil {
 			return nil, err
@@ -239,6 +244,8 @@ func (r *rig) dst(target string) *net.UDPAddr {
 		return netlab.UDPAddr(r.v.ip, vNTPPort)
 	case "scion-svc":
 		return netlab.UDPAddr(r.v.ip, vSCIONPort)
+	case "ntske-scion":
+		return netlab.UDPAddr(r.v.ip, 14460) // ntske.ServerPortSCION
 	case "scion-eh":
 		return netlab.UDPAddr(r.v.ip, 30041)
 	case "disp":
@@ -375,6 +382,26 @@ func (r *rig) sentinel(target string) bool {
 				return false
 			}
 			if after != before {
+				return true
+			}
+		}
+		return false
+	case "ntske-scion":
+		// the next well-formed request: a QUIC connection (TLS 1.3, ALPN ntske/1) over SCION with an empty path,
+		// made with the project's own client-side transport
+		ia := addr.MustIAFrom(1, 0xff0000000110)
+		for attempt := 0; attempt < 3; attempt++ {
+			if !r.v.alive() {
+				return false
+			}
+			cli := udp.UDPAddr{IA: ia, Host: &net.UDPAddr{IP: r.socks["ntske-scion"].LocalAddr().(*net.UDPAddr).IP}}
+			rem := udp.UDPAddr{IA: ia, Host: &net.UDPAddr{IP: r.v.ip.AsSlice(), Port: 14460}}
+			p := snetpath.Path{Src: ia, Dst: ia, DataplanePath: snetpath.Empty{}, NextHop: rem.Host}
+			ctx, cancel := context.WithTimeout(context.Background(), time.Duration(500*(attempt+1))*time.Millisecond)
+			conn, err := scion.DialQUIC(ctx, cli, rem, p, "", &tls.Config{InsecureSkipVerify: true, NextProtos: []string{"ntske/1"}, MinVersion: tls.VersionTLS13}, nil)
+			cancel()
+			if err == nil {
+				conn.CloseWithError(0, "")
 				return true
 			}
 		}
